@@ -121,14 +121,20 @@ def r4(ctx):
     fu = list(b.calls(r'String::from_utf8$'))
     lossy = list(b.calls(r'from_utf8_lossy$|from_utf8_unchecked$'))
     ctx.require(len(fu) == 1 and not lossy, b, 'utf8', 'result is String::from_utf8(bytes)?', None)
-    ext = [t for t in b.calls(r'Extend>::extend$|extend_from_slice$')]
+    # the byte buffer as a sequence: per id, the table entry of that id (state.1[id], or the payload of state.1.get(id)) is appended once
+    from analysis.seq import seq_of_var, ITEM as _IT
+    from rules.common import state_locals
+    bufs = state_locals(b, r'^std::vec::Vec<u8>$')
+    segs = seq_of_var(ctx.facts, b, bufs[0]) if len(bufs) == 1 else None
     n = 0
-    for t in ext:
-        v = core(sym(b, t.args[1]))
-        if v[0] == 'index' and bpe_ids.is_state(v[1], 1):
+    shape = segs is not None and len(segs) == 1 and segs[0].kind == 'nest' and not segs[0].conds and match(core(segs[0].src), ('arg', 2, ANY))
+    for sg in (segs[0].inner if shape else ()):
+        src = core(sg.src) if sg.src is not None else None
+        entry = src is not None and ((src[0] == 'index' and bpe_ids.is_state(src[1], 1) and core(src[2]) == _IT) or
+                                     (src[0] == 'call' and src[1].endswith('::get') and len(src[2]) == 2 and bpe_ids.is_state(core(src[2][0]), 1) and core(src[2][1]) == _IT))
+        if sg.kind == 'each' and entry:
             n += 1
-            loop = cfg.innermost_loop(b, t.bb)
-            ctx.require(loop is not None, b, 'append-in-loop', 'table bytes are appended inside the id loop', None, t.span)
+    ctx.require(shape, b, 'append-in-loop', 'table bytes are appended inside the id loop, in the order of token_ids', 'the byte buffer is built as %s' % [repr(x)[:140] for x in segs or ()])
     ctx.require(n == 1, b, 'append', 'exactly one append of state.1[id] per regular id', 'found %d appends of table entries' % n)
     # the iteration is over the token_ids parameter without reordering adaptor
     nx = [t for t in b.calls(r'::next$')]
